@@ -18,9 +18,11 @@ from vf.replay import differs, subs_from_assignment
 from vf.solve import Result, discharge, identity_obligations
 from vf.sym2smt import Translator
 
-OPAQUE = ("PhaseSpaceFactorSWave", "EqualMassPhaseSpaceFactor", "InvariantMass", "Phi", "Theta", "ArraySum", "ArraySlice", "ArrayMultiplication",
+UF_CLASSES = ("EnergyDependentWidth", "FormFactor", "BlattWeisskopfSquared", "PhaseSpaceFactor", "PhaseSpaceFactorAbs", "PhaseSpaceFactorComplex",
+              "PhaseSpaceFactorSWave", "EqualMassPhaseSpaceFactor", "BreakupMomentumSquared", "acos", "atan2")
+OPAQUE = ("InvariantMass", "Phi", "Theta", "ArraySum", "ArraySlice", "ArrayMultiplication",
           "BoostMatrix", "BoostZMatrix", "RotationYMatrix", "RotationZMatrix", "ArraySymbol", "ArrayAxisSum", "MatrixMultiplication", "NegativeMomentum",
-          "Energy", "FourMomentumX", "FourMomentumY", "FourMomentumZ", "EuclideanNorm", "ThreeMomentum", "ArraySize", "acos", "atan2")  # fmt: skip
+          "Energy", "FourMomentumX", "FourMomentumY", "FourMomentumZ", "EuclideanNorm", "ThreeMomentum", "ArraySize")  # fmt: skip
 
 
 def make_model(kind):
@@ -48,10 +50,12 @@ def make_model(kind):
     if kind == "dpd":
         from ampform.helicity.align.dpd import DalitzPlotDecomposition
 
-        reaction = qrules.generate_transitions(**REACTIONS["J/psi->K0 Sigma+ p~"], formalism="helicity", number_of_threads=1)
+        from ampform.helicity.align.dpd import relabel_edge_ids
+
+        reaction = relabel_edge_ids(qrules.generate_transitions(**REACTIONS["J/psi->K0 Sigma+ p~"], formalism="helicity", number_of_threads=1))
         b = ampform.get_builder(reaction)
         b.config.spin_alignment = DalitzPlotDecomposition(reference_subsystem=1)
-        b.config.stable_final_state_ids = [0, 1, 2]
+        b.config.stable_final_state_ids = [1, 2, 3]
         b.config.scalar_initial_state_mass = True
         return b.formulate()
     raise ValueError(kind)
@@ -149,8 +153,8 @@ def run(config, tier, seed):
     for s_ in new_syms.values():
         olds = [o for o, n in sig_sym.items() if n == s_.name]
         vals_new[s_] = ctx.cvar(s_.name) if (olds and is_coeff(olds[0])) or is_coeff(s_) else ctx.var(s_.name)
-    tr_new = Translator(ctx, symbol_values=vals_new, opaque_classes=OPAQUE, use_assumptions=False)
-    tr_old = Translator(ctx, symbol_values=vals_old, opaque_classes=OPAQUE, use_assumptions=False)
+    tr_new = Translator(ctx, symbol_values=vals_new, opaque_classes=OPAQUE, opaque_real=True, uf_classes=UF_CLASSES, use_assumptions=False)
+    tr_old = Translator(ctx, symbol_values=vals_old, opaque_classes=OPAQUE, opaque_real=True, uf_classes=UF_CLASSES, use_assumptions=False)
     obs, pairs = [], {}
 
     def add(label, e_new, e_old):
@@ -206,8 +210,10 @@ def configs(tier):
             "unknown name", "empty", "two successive"]  # fmt: skip
     for model in ("bw", "stable", "dpd"):
         for mp in maps:
-            if tier == "quick" and model == "bw" and mp in ("unknown name", "empty"):
+            if tier == "quick" and model == "bw" and mp in ("unknown name", "empty", "two successive"):
                 continue
+            if tier == "quick" and model == "dpd" and mp in ("merge(two coefficients)", "chain a->b with b present"):
+                continue  # collected like terms in a very large aligned intensity: thorough tier only
             out.append({"name": f"{model}|{mp}", "model": model, "map": mp})
     return out
 
